@@ -1263,6 +1263,11 @@ func (m *Memberlist) suspectNode(s *suspect) {
 func (m *Memberlist) deadNode(d *dead) {
 	m.nodeLock.Lock()
 	defer m.nodeLock.Unlock()
+	m.deadNodeLocked(d)
+}
+
+// deadNodeLocked is deadNode for callers that already hold nodeLock.
+func (m *Memberlist) deadNodeLocked(d *dead) {
 	state, ok := m.nodeMap[d.Node]
 
 	// If we've never heard about this node before, ignore it
